@@ -44,13 +44,13 @@ ModelAct(ev) ==
 FailedEnd(o) ==
     LET nflt == IF o.applied THEN 1 ELSE 0 IN
     {p \in {"Safe", "FaultDetected", "CleanSuccess", "ForeignInert"} :
-        CASE p = "Safe"          -> ~P_Safe(o.ann, o.rs, o.re, o.eq = 1)
+        CASE p = "Safe"          -> ~P_Safe(o.ann, o.dev, o.rs, o.re, o.eq = 1)
           [] p = "FaultDetected" -> ~P_FaultDetected(o.ann, o.k, nflt, o.rs, o.re)
           [] p = "ForeignInert"  -> o.trap # 0
-          [] p = "CleanSuccess"  -> ~P_CleanSuccess(nflt, TRUE, o.rs, o.re, o.ss, o.se, o.eq = 1)}
+          [] p = "CleanSuccess"  -> ~P_CleanSuccess(nflt, o.dev, TRUE, o.rs, o.re, o.ss, o.se, o.eq = 1)}
 
 ResetStep(ev) ==
-    /\ Reinit(ev.n, ev.ann)
+    /\ Reinit(ev.n, ev.ann, ev.dev)
     /\ cid' = ev.case /\ ncases' = ncases + 1
     /\ UNCHANGED <<viol, ndiv, divs, nfaulted, nclean>>
 
